@@ -484,13 +484,18 @@ func lemmaHandOverThenCreate(rt *esdtNFTCreateRoleTransfer, cr *esdtNFTCreate, o
 //@   requires input == nil || input.CallValue != nil
 //@   requires sndIsCaller(acntSnd, input)
 //@   requires argBounds(input) && costBound(k.funcGasCost) && costBound(k.gasConfig.PersistPerByte) && costBound(k.gasConfig.StorePerByte)
+//@   requires input != nil ==> lsum(list(input.Arguments), 0, len(input.Arguments)) < 1073741824
 //@   loop 0 invariant 0 <= i && i <= len(input.Arguments) && i % 2 == 0
 //@   loop 0 invariant useGas <= k.funcGasCost + lsum(list(input.Arguments), 0, i) * 8589934592
+//@   loop 0 assert lsum(list(input.Arguments), 0, i - 1) == lsum(list(input.Arguments), 0, i - 2) + len(key) && lsum(list(input.Arguments), 0, i) == lsum(list(input.Arguments), 0, i - 1) + len(value)
+//@   loop 0 assert k.gasConfig.PersistPerByte * lsum(list(input.Arguments), 0, i) == k.gasConfig.PersistPerByte * lsum(list(input.Arguments), 0, i - 2) + length * k.gasConfig.PersistPerByte
+//@   loop 0 invariant useGas >= k.funcGasCost + k.gasConfig.PersistPerByte * lsum(list(input.Arguments), 0, i)
 //@   loop 0 invariant forall(b, addr, key, bseq, (b != a || (len(key) >= 6 && key[0:6] == "ELROND")) ==> St[b][key] == old(St)[b][key])
 //@   loop 0 invariant forall(key, bseq, St[a][key] != old(St)[a][key] ==> lcontains(list(input.Arguments), key))
 //@   loop 0 invariant failed == old(failed) && (old(readFailed) ==> readFailed)
 //@   ensures[C11] shape(out, err)
 //@   ensures[C06] err == nil ==> out.GasRemaining <= input.GasProvided && out.OutputAccounts == nil
+//@   ensures[C16] err == nil ==> input.GasProvided - out.GasRemaining >= k.funcGasCost + k.gasConfig.PersistPerByte * lsum(list(input.Arguments), 0, len(input.Arguments)) && input.GasProvided - out.GasRemaining <= k.funcGasCost + 8589934592 * lsum(list(input.Arguments), 0, len(input.Arguments))
 //@   ensures[C05] err == nil ==> seq(input.CallerAddr) == seq(input.RecipientAddr) && !(len(input.CallerAddr) > 10 && (seq(input.CallerAddr) == bzeros(len(input.CallerAddr)) || seq(input.CallerAddr)[0:8] == bzeros(8)))
 //@   ensures[C05] forall(b, addr, key, bseq, (b != a || (len(key) >= 6 && key[0:6] == "ELROND")) ==> St[b][key] == old(St)[b][key])
 //@   ensures[C05] forall(key, bseq, St[a][key] != old(St)[a][key] ==> lcontains(list(input.Arguments), key))
@@ -506,7 +511,7 @@ func lemmaHandOverThenCreate(rt *esdtNFTCreateRoleTransfer, cr *esdtNFTCreate, o
 //@   ensures[C06,C10] vmOutput.OutputAccounts != nil && fresh(vmOutput.OutputAccounts) && forall(k, bseq, has(vmOutput.OutputAccounts, k) == (k == seq(recipient)))
 //@   ensures[C06,C10,C16] vmOutput.OutputAccounts[seq(recipient)] != nil && fresh(vmOutput.OutputAccounts[seq(recipient)]) && seq(vmOutput.OutputAccounts[seq(recipient)].Address) == seq(recipient) && len(vmOutput.OutputAccounts[seq(recipient)].OutputTransfers) == 1
 //@   ensures[C06,C16] vmOutput.OutputAccounts[seq(recipient)].OutputTransfers[0].GasLimit == old(vmOutput.GasRemaining) && vmOutput.OutputAccounts[seq(recipient)].OutputTransfers[0].GasLocked == gasLocked && vmOutput.OutputAccounts[seq(recipient)].OutputTransfers[0].CallType == callType
-//@   ensures[C10] seq(vmOutput.OutputAccounts[seq(recipient)].OutputTransfers[0].Data) == wireOf(seq(function), arguments) && seq(vmOutput.OutputAccounts[seq(recipient)].OutputTransfers[0].SenderAddress) == seq(senderAddress)
+//@   ensures[C10,C12] seq(vmOutput.OutputAccounts[seq(recipient)].OutputTransfers[0].Data) == wireOf(seq(function), arguments) && seq(vmOutput.OutputAccounts[seq(recipient)].OutputTransfers[0].SenderAddress) == seq(senderAddress)
 //@   ensures[C10] vmOutput.OutputAccounts[seq(recipient)].OutputTransfers[0].Value != nil && bigval(vmOutput.OutputAccounts[seq(recipient)].OutputTransfers[0].Value) == 0
 //@   modifies vmOutput.OutputAccounts, vmOutput.GasRemaining, newmap(vmOutput.OutputAccounts), new(vmcommon.OutputAccount), new([]vmcommon.OutputTransfer), new(big.Int)
 
@@ -516,7 +521,7 @@ func lemmaHandOverThenCreate(rt *esdtNFTCreateRoleTransfer, cr *esdtNFTCreate, o
 //@   ensures[C06,C10] vmOutput.OutputAccounts != nil && fresh(vmOutput.OutputAccounts) && forall(k, bseq, has(vmOutput.OutputAccounts, k) == (k == seq(recipient)))
 //@   ensures[C06,C10,C16] vmOutput.OutputAccounts[seq(recipient)] != nil && fresh(vmOutput.OutputAccounts[seq(recipient)]) && seq(vmOutput.OutputAccounts[seq(recipient)].Address) == seq(recipient) && len(vmOutput.OutputAccounts[seq(recipient)].OutputTransfers) == 1
 //@   ensures[C06,C16] vmOutput.OutputAccounts[seq(recipient)].OutputTransfers[0].GasLimit == gasLimit && vmOutput.OutputAccounts[seq(recipient)].OutputTransfers[0].GasLocked == gasLocked && vmOutput.OutputAccounts[seq(recipient)].OutputTransfers[0].CallType == callType
-//@   ensures[C10] seq(vmOutput.OutputAccounts[seq(recipient)].OutputTransfers[0].Data) == wireOf(seq(funcToCall), arguments) && seq(vmOutput.OutputAccounts[seq(recipient)].OutputTransfers[0].SenderAddress) == seq(senderAddress)
+//@   ensures[C10,C12] seq(vmOutput.OutputAccounts[seq(recipient)].OutputTransfers[0].Data) == wireOf(seq(funcToCall), arguments) && seq(vmOutput.OutputAccounts[seq(recipient)].OutputTransfers[0].SenderAddress) == seq(senderAddress)
 //@   ensures[C10] vmOutput.OutputAccounts[seq(recipient)].OutputTransfers[0].Value != nil && bigval(vmOutput.OutputAccounts[seq(recipient)].OutputTransfers[0].Value) == 0
 //@   modifies vmOutput.OutputAccounts, newmap(vmOutput.OutputAccounts), new(vmcommon.OutputAccount), new([]vmcommon.OutputTransfer), new(big.Int)
 
@@ -673,11 +678,11 @@ func lemmaHandOverThenCreate(rt *esdtNFTCreateRoleTransfer, cr *esdtNFTCreate, o
 //@   loop 0 invariant forall(j, int, 0 <= j && j <= rangeindex && listESDTTransferData[j].TokenMetaData == nil ==> seq(multiTransferCallArgs[2 + 3 * j]) == "\x00" && seq(multiTransferCallArgs[3 + 3 * j]) == be(iabs(bigval(listESDTTransferData[j].Value))))
 //@   ensures[C17] err == nil ==> failed == old(failed)
 //@   ensures[C06] err == nil && old(vmOutput.OutputAccounts) == nil ==> onlyRcpt(vmOutput, dstA) && vmOutput.GasRemaining + fwdGas(vmOutput, dstA) <= old(vmOutput.GasRemaining)
-//@   ensures[C10] err == nil && shardOf(dstA) != selfShard ==> has(vmOutput.OutputAccounts, dstA) && wfunc(seq(vmOutput.OutputAccounts[dstA].OutputTransfers[0].Data)) == "MultiESDTNFTTransfer" && warg(seq(vmOutput.OutputAccounts[dstA].OutputTransfers[0].Data), 0) == be(nL)
-//@   ensures[C10] err == nil && shardOf(dstA) != selfShard ==> wcount(seq(vmOutput.OutputAccounts[dstA].OutputTransfers[0].Data)) == 1 + 3 * nL + ite(len(vmInput.Arguments) > 3 * nL + 2, len(vmInput.Arguments) - (3 * nL + 2), 0)
-//@   ensures[C10] err == nil && shardOf(dstA) != selfShard ==> forall(j, int, trigger(warg(seq(vmOutput.OutputAccounts[dstA].OutputTransfers[0].Data), 1 + 3 * j)), 0 <= j && j < nL ==> warg(seq(vmOutput.OutputAccounts[dstA].OutputTransfers[0].Data), 1 + 3 * j) == seq(listTokenIDs[j]))
-//@   ensures[C10] err == nil && shardOf(dstA) != selfShard ==> forall(j, int, trigger(warg(seq(vmOutput.OutputAccounts[dstA].OutputTransfers[0].Data), 3 + 3 * j)), 0 <= j && j < nL && listESDTTransferData[j].TokenMetaData != nil ==> warg(seq(vmOutput.OutputAccounts[dstA].OutputTransfers[0].Data), 2 + 3 * j) == be(listESDTTransferData[j].TokenMetaData.Nonce) && warg(seq(vmOutput.OutputAccounts[dstA].OutputTransfers[0].Data), 3 + 3 * j) == tokEnc(listESDTTransferData[j]))
-//@   ensures[C10] err == nil && shardOf(dstA) != selfShard ==> forall(j, int, trigger(warg(seq(vmOutput.OutputAccounts[dstA].OutputTransfers[0].Data), 3 + 3 * j)), 0 <= j && j < nL && listESDTTransferData[j].TokenMetaData == nil ==> warg(seq(vmOutput.OutputAccounts[dstA].OutputTransfers[0].Data), 2 + 3 * j) == "\x00" && warg(seq(vmOutput.OutputAccounts[dstA].OutputTransfers[0].Data), 3 + 3 * j) == be(iabs(bigval(listESDTTransferData[j].Value))))
+//@   ensures[C01,C10] err == nil && shardOf(dstA) != selfShard ==> has(vmOutput.OutputAccounts, dstA) && wfunc(seq(vmOutput.OutputAccounts[dstA].OutputTransfers[0].Data)) == "MultiESDTNFTTransfer" && warg(seq(vmOutput.OutputAccounts[dstA].OutputTransfers[0].Data), 0) == be(nL)
+//@   ensures[C01,C10] err == nil && shardOf(dstA) != selfShard ==> wcount(seq(vmOutput.OutputAccounts[dstA].OutputTransfers[0].Data)) == 1 + 3 * nL + ite(len(vmInput.Arguments) > 3 * nL + 2, len(vmInput.Arguments) - (3 * nL + 2), 0)
+//@   ensures[C01,C10] err == nil && shardOf(dstA) != selfShard ==> forall(j, int, trigger(warg(seq(vmOutput.OutputAccounts[dstA].OutputTransfers[0].Data), 1 + 3 * j)), 0 <= j && j < nL ==> warg(seq(vmOutput.OutputAccounts[dstA].OutputTransfers[0].Data), 1 + 3 * j) == seq(listTokenIDs[j]))
+//@   ensures[C01,C10] err == nil && shardOf(dstA) != selfShard ==> forall(j, int, trigger(warg(seq(vmOutput.OutputAccounts[dstA].OutputTransfers[0].Data), 3 + 3 * j)), 0 <= j && j < nL && listESDTTransferData[j].TokenMetaData != nil ==> warg(seq(vmOutput.OutputAccounts[dstA].OutputTransfers[0].Data), 2 + 3 * j) == be(listESDTTransferData[j].TokenMetaData.Nonce) && warg(seq(vmOutput.OutputAccounts[dstA].OutputTransfers[0].Data), 3 + 3 * j) == tokEnc(listESDTTransferData[j]))
+//@   ensures[C01,C10] err == nil && shardOf(dstA) != selfShard ==> forall(j, int, trigger(warg(seq(vmOutput.OutputAccounts[dstA].OutputTransfers[0].Data), 3 + 3 * j)), 0 <= j && j < nL && listESDTTransferData[j].TokenMetaData == nil ==> warg(seq(vmOutput.OutputAccounts[dstA].OutputTransfers[0].Data), 2 + 3 * j) == "\x00" && warg(seq(vmOutput.OutputAccounts[dstA].OutputTransfers[0].Data), 3 + 3 * j) == be(iabs(bigval(listESDTTransferData[j].Value))))
 //@   modifies vmOutput.GasRemaining, vmOutput.OutputAccounts, failed, newmap(vmOutput.OutputAccounts), new(vmcommon.OutputAccount), new([]vmcommon.OutputTransfer), new(big.Int), new([][]byte)
 
 //@ func (e *esdtNFTMultiTransfer) processESDTNFTMultiTransferOnSenderShard
@@ -695,9 +700,9 @@ func lemmaHandOverThenCreate(rt *esdtNFTCreateRoleTransfer, cr *esdtNFTCreate, o
 //@   loop 0 invariant vmOutput.GasRemaining == vmInput.GasProvided - numOfTransfers * e.funcGasCost && vmOutput.OutputAccounts == nil && vmOutput.ReturnCode == 0 && len(vmOutput.Logs) == numOfTransfers
 //@   loop 0 invariant i > 0 && verifyPayable && !isNil(acntDst) ==> payable(dstA)
 //@   loop 0 invariant isNil(acntDst) ==> forall(j, int, 0 <= j && j < i ==> bigval(listEsdtData[j].Value) == beval(seq(vmInput.Arguments[4 + 3 * j])) && seq(listTokenID[j]) == seq(vmInput.Arguments[2 + 3 * j]))
-//@   ensures[C10] err == nil && shardOf(dstA) != selfShard ==> has(out.OutputAccounts, dstA)
-//@   ensures[C10] err == nil && shardOf(dstA) != selfShard ==> forall(j, int, trigger(warg(seq(out.OutputAccounts[dstA].OutputTransfers[0].Data), 1 + 3 * j)), 0 <= j && j < nT ==> warg(seq(out.OutputAccounts[dstA].OutputTransfers[0].Data), 1 + 3 * j) == seq(vmInput.Arguments[2 + 3 * j]))
-//@   ensures[C10] err == nil && shardOf(dstA) != selfShard ==> forall(j, int, trigger(warg(seq(out.OutputAccounts[dstA].OutputTransfers[0].Data), 3 + 3 * j)), 0 <= j && j < nT ==> warg(seq(out.OutputAccounts[dstA].OutputTransfers[0].Data), 3 + 3 * j) == be(beval(seq(vmInput.Arguments[4 + 3 * j]))) || dVal(warg(seq(out.OutputAccounts[dstA].OutputTransfers[0].Data), 3 + 3 * j)) == beval(seq(vmInput.Arguments[4 + 3 * j])))
+//@   ensures[C01,C10] err == nil && shardOf(dstA) != selfShard ==> has(out.OutputAccounts, dstA)
+//@   ensures[C01,C10] err == nil && shardOf(dstA) != selfShard ==> forall(j, int, trigger(warg(seq(out.OutputAccounts[dstA].OutputTransfers[0].Data), 1 + 3 * j)), 0 <= j && j < nT ==> warg(seq(out.OutputAccounts[dstA].OutputTransfers[0].Data), 1 + 3 * j) == seq(vmInput.Arguments[2 + 3 * j]))
+//@   ensures[C01,C10] err == nil && shardOf(dstA) != selfShard ==> forall(j, int, trigger(warg(seq(out.OutputAccounts[dstA].OutputTransfers[0].Data), 3 + 3 * j)), 0 <= j && j < nT ==> warg(seq(out.OutputAccounts[dstA].OutputTransfers[0].Data), 3 + 3 * j) == be(beval(seq(vmInput.Arguments[4 + 3 * j]))) || dVal(warg(seq(out.OutputAccounts[dstA].OutputTransfers[0].Data), 3 + 3 * j)) == beval(seq(vmInput.Arguments[4 + 3 * j])))
 //@   ensures[C11] shape(out, err)
 //@   ensures[C17] err == nil ==> failed == old(failed)
 //@   ensures[C06] err == nil ==> onlyRcpt(out, dstA) && out.GasRemaining + fwdGas(out, dstA) <= vmInput.GasProvided
@@ -731,7 +736,7 @@ func lemmaHandOverThenCreate(rt *esdtNFTCreateRoleTransfer, cr *esdtNFTCreate, o
 //@   ensures[C03] err == nil && !senderSide ==> isNil(acntSnd)
 //@   ensures[C06] err == nil && !senderSide ==> onlyRcpt(out, rcv) && out.GasRemaining + fwdGas(out, rcv) <= vmInput.GasProvided
 //@   ensures[C06] err == nil && senderSide ==> onlyRcpt(out, seq(vmInput.Arguments[0])) && out.GasRemaining + fwdGas(out, seq(vmInput.Arguments[0])) <= vmInput.GasProvided
-//@   ensures[C10] err == nil && senderSide && shardOf(seq(vmInput.Arguments[0])) != selfShard ==> has(out.OutputAccounts, seq(vmInput.Arguments[0])) && forall(j, int, trigger(warg(seq(out.OutputAccounts[seq(vmInput.Arguments[0])].OutputTransfers[0].Data), 3 + 3 * j)), 0 <= j && j < beval(seq(vmInput.Arguments[1])) % 18446744073709551616 ==> warg(seq(out.OutputAccounts[seq(vmInput.Arguments[0])].OutputTransfers[0].Data), 1 + 3 * j) == seq(vmInput.Arguments[2 + 3 * j]) && (warg(seq(out.OutputAccounts[seq(vmInput.Arguments[0])].OutputTransfers[0].Data), 3 + 3 * j) == be(beval(seq(vmInput.Arguments[4 + 3 * j]))) || dVal(warg(seq(out.OutputAccounts[seq(vmInput.Arguments[0])].OutputTransfers[0].Data), 3 + 3 * j)) == beval(seq(vmInput.Arguments[4 + 3 * j]))))
+//@   ensures[C01,C10] err == nil && senderSide && shardOf(seq(vmInput.Arguments[0])) != selfShard ==> has(out.OutputAccounts, seq(vmInput.Arguments[0])) && forall(j, int, trigger(warg(seq(out.OutputAccounts[seq(vmInput.Arguments[0])].OutputTransfers[0].Data), 3 + 3 * j)), 0 <= j && j < beval(seq(vmInput.Arguments[1])) % 18446744073709551616 ==> warg(seq(out.OutputAccounts[seq(vmInput.Arguments[0])].OutputTransfers[0].Data), 1 + 3 * j) == seq(vmInput.Arguments[2 + 3 * j]) && (warg(seq(out.OutputAccounts[seq(vmInput.Arguments[0])].OutputTransfers[0].Data), 3 + 3 * j) == be(beval(seq(vmInput.Arguments[4 + 3 * j]))) || dVal(warg(seq(out.OutputAccounts[seq(vmInput.Arguments[0])].OutputTransfers[0].Data), 3 + 3 * j)) == beval(seq(vmInput.Arguments[4 + 3 * j]))))
 //@   ensures[C01,C10] !senderSide && isErr(err, ErrInvalidArguments) && !failed && !readFailed ==> nD == 0 || nD > len(vmInput.Arguments) || len(vmInput.Arguments) < 3 * nD + 1 || len(vmInput.Arguments) < 2
 //@   ensures[C09] err == nil && !senderSide && St != old(St) && mustVerify(vmInput, 3 * nD + 1) ==> payable(rcv)
 //@   ensures[C09] err == nil && senderSide ==> shardOf(seq(vmInput.Arguments[0])) != 4294967295 && seq(vmInput.Arguments[0]) != snd && len(vmInput.Arguments[0]) == len(vmInput.CallerAddr)
